@@ -56,6 +56,13 @@ theorem nest (root : Img) (off0 : List Nat) (hroot : Placed root root off0) (ste
     (h : root.runOk steps = some im) : ∃ off, Placed root im off :=
   placed_run root steps root im off0 hroot h
 
+/-- NESTING WITH THE COMPOSED OFFSET MADE EXPLICIT: `runOff` accumulates the sum of the normalised slice starts of
+the spatial steps (zero for the time steps); the image returned by the program is placed in the root at EXACTLY that
+offset — one extraction with the composed offsets, not merely "some" offset. -/
+theorem nest_offsets (root : Img) (off0 : List Nat) (hroot : Placed root root off0) (steps : List Step) (im : Img)
+    (off : List Nat) (h : root.runOff off0 steps = some (im, off)) : Placed root im off ∧ root.runOk steps = some im :=
+  placed_runOff root steps root im off0 off hroot h
+
 /-- … and freshly constructed images satisfy the hypothesis of `nest` (offset zero). -/
 theorem root_placed (rid : Nat) (cs : CS) (series scalar : Bool) (T : Nat) (time : Option (List (Option Rat)))
     (date : List (Option Int)) (root : Img) (h : mkRoot rid cs series scalar T time date = .ok root)
@@ -64,9 +71,11 @@ theorem root_placed (rid : Nat) (cs : CS) (series scalar : Bool) (T : Nat) (time
     Placed root root (List.replicate cs.dim.toNat 0) :=
   placed_root rid cs series scalar T time date root h hcs hT hD hc
 
-/-- a physical box selects the same block as the voxel box obtained by converting its corner
-points to voxel indices. -/
-theorem physical_eq_voxel_box (im : Img) (pts : List (List Rat)) :
+/-- DEFINITIONAL UNFOLDING (kept for reference, proves nothing about behaviour): the CoordinateArray branch of
+`Image.subregion` IS `coordinatesystem.voxel(points)` followed by the same min/max/clip expression as the VoxelArray
+branch, and the model is written the same way. The substantive statements about physical boxes are
+`physical_box_clipped` (which block a physical box selects, via `voxel ∘ coordinate = floor`) and `roi_clipping`. -/
+theorem subCoords_unfold (im : Img) (pts : List (List Rat)) :
     im.subCoords pts = (im.cs.voxelB pts >>= fun vox => im.subVoxels vox) := by
   unfold Img.subCoords Img.subVoxels
   cases im.cs.voxelB pts <;> rfl
@@ -107,8 +116,38 @@ theorem stack_slice_rel (cs : CS) (scalar : Bool) (xs : List (Slab × Rat)) (hn 
     ∃ s, stack (xs.map (timed cs scalar)) = .ok s ∧ s.timeSlice (i : Int) = .ok (timed cs scalar xs[i]) :=
   stack_slice_rel' cs scalar xs hn i hi
 
-/-- stacking single-time images with strictly increasing dates and slicing again returns each
-original's data and date, with relative time `date_i − date_0`. -/
+/-- HOW THE STACK SENTENCE IS READ. "Stacking single-time images into a series and slicing it again returns the
+originals with their dates and relative times" = data and DATES are returned exactly; the RELATIVE time of slice `i` is
+relative to the reference date of the SERIES, which is the reference date of the first image. For dated images with
+ARBITRARY stored relative times (incl. times in another unit, "both") and ARBITRARY reference dates, `stack` (no offset)
+derives the times from the dates: slice `i` has time `date_i − ref_0` and reference `ref_0`. (The stored times of dated
+images are NOT kept by `stack`; they are kept by `append(…, offset)`, see `append_offset_keeps_times`.) -/
+theorem stack_slice_dated (cs : CS) (scalar : Bool) (x0 : Slab × Int × Rat × Int) (rest : List (Slab × Int × Rat × Int))
+    (hr : rest ≠ []) (hsorted : List.Pairwise (· < ·) ((x0 :: rest).map (·.2.1))) (i : Nat) (hi : i < (x0 :: rest).length) :
+    ∃ s, stack ((x0 :: rest).map (datedG cs scalar)) = .ok s ∧
+      s.timeSlice (i : Int) = .ok ⟨cs, false, scalar, [((x0 :: rest)[i]).1],
+        [some ((((x0 :: rest)[i]).2.1 - x0.2.2.2 : Int) : Rat)], [some ((x0 :: rest)[i]).2.1], some x0.2.2.2⟩ :=
+  stack_slice_datedG cs scalar x0 rest hr hsorted i hi
+
+/-- … hence, when all images share ONE reference date `r` and carry the times `date − r` (what the constructor derives
+when `reference_date=r` is passed), slicing the stacked series returns every original EXACTLY — data, date, relative time
+and reference date: the sentence as written. -/
+theorem stack_slice_shared_reference (cs : CS) (scalar : Bool) (r : Int) (x0 : Slab × Int × Rat × Int)
+    (rest : List (Slab × Int × Rat × Int)) (hr : rest ≠ [])
+    (hshared : ∀ x ∈ x0 :: rest, x.2.2.2 = r ∧ x.2.2.1 = ((x.2.1 - r : Int) : Rat))
+    (hsorted : List.Pairwise (· < ·) ((x0 :: rest).map (·.2.1))) (i : Nat) (hi : i < (x0 :: rest).length) :
+    ∃ s, stack ((x0 :: rest).map (datedG cs scalar)) = .ok s ∧
+      s.timeSlice (i : Int) = .ok (datedG cs scalar ((x0 :: rest)[i])) := by
+  obtain ⟨s, hs, ht⟩ := stack_slice_datedG cs scalar x0 rest hr hsorted i hi
+  refine ⟨s, hs, ?_⟩
+  rw [ht]
+  have h0 := (hshared x0 (by simp)).1
+  obtain ⟨hi1, hi2⟩ := hshared ((x0 :: rest)[i]) (List.getElem_mem hi)
+  unfold datedG
+  rw [h0, hi1, hi2]
+
+/-- special case: every image carries only its date (reference = own date, time 0, what the constructor gives by default):
+slice `i` has the date of image `i` and the time `date_i − date_0`. -/
 theorem stack_slice_dates (cs : CS) (scalar : Bool) (x0 : Slab × Int) (rest : List (Slab × Int)) (hr : rest ≠ [])
     (hsorted : List.Pairwise (· < ·) ((x0 :: rest).map (·.2))) (i : Nat) (hi : i < (x0 :: rest).length) :
     ∃ s, stack ((x0 :: rest).map (dated cs scalar)) = .ok s ∧
@@ -226,5 +265,7 @@ result is root entry (time 2, voxel (2,2), component 1). -/
 def exRootA : Except Err ImgA := mkRootA 7 exCS true false 3 2 none [some 0, some 10, some 25]
 example : ((exRootA.toOption.bind fun r => r.runOk [.sub [(some 1, none), (none, some (-1))], .tinterval (some 1, none), .tslice (-1)]).map
     fun im => im.data 0 [1, 2] 1) = some ⟨7, 2, [2, 2], 1⟩ := by decide +kernel
+
+example : ((exRoot.toOption.bind fun r => r.runOff [0, 0] exProg).map fun x => x.2) = some [1, 1] := by decide +kernel
 
 end Darsia.C02
